@@ -362,5 +362,25 @@ Print Assumptions C06_all_modes_dynamic_spec_2d.
 Print Assumptions C06_all_modes_zero_steps_2d.
 Print Assumptions C06_all_modes_until_fixed_point_halts_2d.
 Print Assumptions C06_all_modes_until_fixed_point_sound_2d.
-From CPL Require Import gen.GenFuns GenProps.C06Src. (* source tie: gen/GenFuns.v is regenerated from ca_functions.py on every run *)
+
+(* ================================================================== memo modes, ANY rule state machine (after review)
+   `evolve_mode_dynamic` is the generic loop over the memoised step (Memo: step_memo, Recursive:
+   step_recursive, Plain: the logging plain step), so for every rule - stateful, reading c and t -
+   every mode m and every radius: a predicate that says yes k times and then no makes the callable
+   run return exactly what the fixed-count run OF THE SAME MODE with timesteps = k+1 returns (array,
+   final rule state and rule-call log), with the argument log [(first j states, j) | j = 1..k+1]. *)
+Theorem C06_memo_modes_any_rule_1d :
+  forall (St : Type) (rule : rule1 St) (store : Z -> Z) (P : Type) (pred : P -> list (list Z) -> nat -> P * bool)
+         (m : mode) r k fuel p0 s0 (hist : list (list Z)) (ps : nat -> P) s' lg rows pk,
+  hist <> [] ->
+  evolve_mode_fixed rule store m r s0 hist (S k) = Ok (s', lg, hist ++ rows) ->
+  ps 0 = p0 ->
+  (forall j, j < k -> pred (ps j) (last hist [] :: firstn j rows) (S j) = (ps (S j), true)) ->
+  pred (ps k) (last hist [] :: rows) (S k) = (pk, false) ->
+  k < fuel ->
+  evolve_mode_dynamic rule store pred m r fuel p0 s0 hist
+  = Some (pk, (s', lg, hist ++ rows), map (fun j => (last hist [] :: firstn (j - 1) rows, j)) (seq 1 (S k))).
+Proof. exact memo_modes_any_rule_1d. Qed.
+Print Assumptions C06_memo_modes_any_rule_1d.
+From CPL Require Import gen.GenFuns_C06 GenProps.C06Src. (* source tie: gen/GenFuns_C06.v is regenerated from ca_functions.py on every run *)
 Theorem C06_source_tie : forall (C : Type) (eqb : C -> C -> bool) (states : list C) (t : nat), src_until_fixed_point_timesteps eqb states = Ok (snd (until_fixed_point eqb tt states t)). Proof. exact C06_source_translation_agrees. Qed. Print Assumptions C06_source_tie.
